@@ -9,6 +9,7 @@ EXTENDS EinsumSyntax, Json
 CONSTANTS MaxIn,     \* exhaustive: 1..MaxIn inputs
           OutK,      \* exhaustive: 0..OutK entries in the output projection
           InK,       \* exhaustive: 0..InK entries per input projection
+          NEnt,      \* exhaustive: the first NEnt of the small entries are used (3..5)
           MaxWS,     \* at most MaxWS white-space insertions per string
           MalWS,     \* the same for corrupted strings
           WS,        \* the white-space strings
@@ -138,8 +139,9 @@ TypeOK == /\ pos \in 0..Len(toks)
 -----------------------------------------------------------------------------
 (* Exhaustive generator: small alphabets, every record / long choice / corruption / *)
 (* white-space placement within the bounds.                                          *)
-SmallEntries == {Simple("a"), Simple("n0"), Expl("M", <<"n0">>),
-                 Expl("H", <<"a", "+", "n0">>), Expl("H", <<"2", "*", "a", "+", "n0">>)}
+SmallEntrySeq == <<Simple("a"), Expl("H", <<"a", "+", "n0">>), Simple("n0"), Expl("M", <<"n0">>),
+                   Expl("H", <<"2", "*", "a", "+", "n0">>)>>
+SmallEntries == {SmallEntrySeq[i] : i \in 1..NEnt}
 SmallProjs(k) == {p \in UNION {[1..j -> SmallEntries] : j \in 0..k} : DistinctRanks(p)}
 InNames == <<"I", "W", "T0", "x_in">>
 ExhRecs(mi, ok, ik) ==
